@@ -97,6 +97,43 @@ def run(tier: str = "quick", seed: int = 0) -> dict:
         if len(samples) < 3:
             samples.append({"tree": str(desc), "prune": str(pairs[0][0]), "filter": str(pairs[0][1])})
         M.detach_all(root)
+    # inherited child fields from several node bases, every order of first use among the classes of the hierarchy
+    from . import classgen as G
+    from .c12 import expected_children
+    import itertools as _it
+    F = G.FSpec
+    for levels, second in (([[F("left", "O")], []], [F("items", "T")]), ([[F("a", "C", default=False)], [], [F("more", "T")]], None)):
+        n = len(G._define_raw(levels, 9100, second))
+        for order in _it.permutations(range(n)):
+            evals += 1
+            distinct.add(("hierarchy", str(levels), order))
+            classes = G._define_raw(levels, 9101, second)
+            insts = {}
+            for idx in order:
+                insts[idx] = G.instance(classes[idx], 0)
+                list(insts[idx].dfs())
+            for idx in range(n):
+                want = []
+
+                def walk(gc_inst, node, acc):
+                    for c, f, i in ([(x[0], x[1], x[2]) for x in expected_children(node_gc(node), node, False)] if node_gc(node) else []):
+                        acc.append((c, node, f, i))
+                        walk(gc_inst, c, acc)
+
+                by_cls = {gc.cls: gc for gc in classes}
+
+                def node_gc(node):
+                    return by_cls.get(type(node))
+                walk(None, insts[idx], want)
+                got = list(insts[idx].dfs())
+                if len(got) != len(want) or any(g.node is not w[0] or g.field.name != w[2] or g.findex != w[3] for g, w in zip(got, want)):
+                    fail_msg = f"dfs on class #{idx} of a hierarchy with inherited child fields (first-use order {order}): {len(got)} positions, the class definition has {len(want)}"
+                    if len(failures) < 10:
+                        failures.append({"what": fail_msg, "kf": None, "snippet": "import rt.c05 as c, sys\nr = c.run()\nprint([f['what'] for f in r['failures']][:3])\nsys.exit(1 if r['failures'] else 0)"})
+                if [x.node for x in insts[idx].bfs()] and len(list(insts[idx].bfs())) != len(want):
+                    failures.append({"what": f"bfs on class #{idx} (first-use order {order}) misses positions", "kf": None, "snippet": ""})
+            for i_ in insts.values():
+                i_.detach()
     # a shared node object at two positions is visited at both
     leaf = M.RtLeaf(7)
     sh = M.RtList((leaf, M.RtUnary(leaf)))
